@@ -79,7 +79,7 @@ let unres = function
 
 let header cap (l : z list) =
   let n = List.length l in
-  join [ "#"; string_of_int n; b2s (n = 0); b2s (n = cap); string_of_int cap ]
+  join [ "S"; string_of_int n; b2s (n = 0); b2s (n = cap); string_of_int cap ]
 
 let qs = [ 0; 1; 2; 3; 4; 5 ]
 let bands = [ 0; 1; 2; 3; 4 ]
